@@ -234,8 +234,8 @@ def r122(ctx):
                            where=f"{b.file}:{rln}", sample="invoices.insert dominated by insert==true")
 
 
-def r123(ctx):
-    ctx.rule("R12.3", "VelocityControl::insert: increment refused beyond the limit; rotation + start_sec re-alignment on "
+def r123(ctx, rid="R12.3"):
+    ctx.rule(rid, "VelocityControl::insert: increment refused beyond the limit; rotation + start_sec re-alignment on "
                       "every path before return; canonical shift arithmetic; velocity() sums all buckets")
     p = ctx.prog
     b = p.fn(f"{VC}::insert")
@@ -250,17 +250,17 @@ def r123(ctx):
         if t.kind == "call" and t.call.callee and "IndexMut" in t.call.callee.name and t.call.args:
             if any(x[0] == "field" and x[3] == "buckets" for x in subexprs(fv.expr(t.call.args[0]))):
                 inc.append((bi, t.call.line))
-    ctx.floor("R12.3", "bucket increment site", len(inc), 1)
+    ctx.floor(rid, "bucket increment site", len(inc), 1)
     assum = [atoms.parse_atom("current_velocity + velocity_msat > VelocityControl.limit")]
     cut = atoms.scenario_cut(fv, assum)
     live = fv.reach(0, cut_edges=cut)
     bad = [x for x in inc if x[0] in live]
-    ctx.ob("R12.3", bool(cut) and not bad, f"{b.name}/limit-guards-increment",
+    ctx.ob(rid, bool(cut) and not bad, f"{b.name}/limit-guards-increment",
            "VelocityControl::insert can add the amount to the bucket although velocity + amount > limit",
            where=f"{b.file}:{inc[0][1]}", sample={"scenario": "current_velocity + velocity_msat > limit", "edges_cut": len(cut)})
     # in that scenario the function returns false only
     rets = [r for r in fv.return_sites() if r["block"] in live]
-    ctx.ob("R12.3", all(r["kind"] == "false" for r in rets) and rets, f"{b.name}/limit-returns-false",
+    ctx.ob(rid, all(r["kind"] == "false" for r in rets) and rets, f"{b.name}/limit-returns-false",
            f"insert returns {[r['how'] for r in rets]} when the limit would be exceeded", where=f"{b.file}:{b.line}",
            sample="returns false")
     # current_velocity is velocity() taken after the rotation
@@ -269,25 +269,25 @@ def r123(ctx):
         if b.local_name(l) == "current_velocity":
             cv = fv.local_expr(l)
     cvr = render(cv[2]) if cv and cv[0] == "let" else "?"
-    ctx.ob("R12.3", cvr.endswith("VelocityControl::velocity(self)"), f"{b.name}/current-velocity",
+    ctx.ob(rid, cvr.endswith("VelocityControl::velocity(self)"), f"{b.name}/current-velocity",
            f"current_velocity is `{cvr[:100]}`", where=f"{b.file}:{b.line}", sample=cvr[-60:])
     # rotation before every return: start_sec write and the shift loop are not control-dependent on the verdict
     sw = [(bi, s) for bi in fv.live_blocks() for s in b.stmts(bi)
           if any(isinstance(pr, tuple) and pr[0] == "f" and pr[2] == "start_sec" and pr[1].endswith("VelocityControl")
                  for pr in s.place.proj)]
-    ctx.ob("R12.3", len(sw) == 1, f"{b.name}/start_sec-write", f"expected one write of start_sec in insert, found {len(sw)}",
+    ctx.ob(rid, len(sw) == 1, f"{b.name}/start_sec-write", f"expected one write of start_sec in insert, found {len(sw)}",
            where=f"{b.file}:{b.line}")
     swb = {bi for bi, _ in sw}
     for r in fv.return_sites():
         ok = r["block"] not in fv.reach(0, cut_nodes=swb)
-        ctx.ob("R12.3", ok, f"{b.name}/realign-before-return/{r['kind']}",
+        ctx.ob(rid, ok, f"{b.name}/realign-before-return/{r['kind']}",
                f"insert can return {r['how']} without re-aligning start_sec after shifting the buckets: the next call "
                f"shifts again and already-approved amounts age out faster than real time",
                where=f"{b.file}:{r['line']}", sample=f"return {r['kind']} dominated by start_sec write")
     for bi, s in sw:
         e = render(fv.expr(s.rv.ops[0]))
         ok = e in ("(current_sec - (current_sec % self.bucket_interval))",)
-        ctx.ob("R12.3", ok, f"{b.name}/start_sec-value", f"start_sec is re-aligned to `{e}`", where=f"{b.file}:{s.line}",
+        ctx.ob(rid, ok, f"{b.name}/start_sec-value", f"start_sec is re-aligned to `{e}`", where=f"{b.file}:{s.line}",
                sample=e)
     # the start_sec write comes before the velocity() reading and verdict
     # the shift count (what the buckets are rotated by): min(#buckets, elapsed / bucket_interval), used both for the
@@ -297,7 +297,7 @@ def r123(ctx):
     rs = [render(pv.expr(c.args[1])) for bi, c in b.calls() if c.callee and c.callee.name.endswith("Vec::<T, A>::resize") and len(c.args) > 1]
     rg = [render(pv.expr(c.args[0])) for bi, c in b.calls() if c.callee and "IntoIterator>::into_iter" in c.callee.name and c.args]
     ok = any(r == f"(len(self.buckets) - {SH})" for r in rs) and any(r.endswith(f"start: 0, end: {SH}}}") for r in rg)
-    ctx.ob("R12.3", ok, f"{b.name}/nshift", f"buckets are truncated to {rs} and refilled over {rg} (expected a shift by {SH})",
+    ctx.ob(rid, ok, f"{b.name}/nshift", f"buckets are truncated to {rs} and refilled over {rg} (expected a shift by {SH})",
            where=f"{b.file}:{b.line}", sample=SH)
     # velocity(): loop over all buckets, accumulating
     vb = p.fn(f"{VC}::velocity")
@@ -310,12 +310,12 @@ def r123(ctx):
         e = vv.expr(c.args[0])
         if any(x[0] == "field" and x[3] == "buckets" for x in subexprs(e)):
             src_ok = True
-    ctx.ob("R12.3", src_ok, f"{vb.name}/sums-all-buckets", "velocity() no longer iterates over self.buckets",
+    ctx.ob(rid, src_ok, f"{vb.name}/sums-all-buckets", "velocity() no longer iterates over self.buckets",
            where=f"{vb.file}:{vb.line}", sample="for bucket in self.buckets.iter()")
 
 
-def r124(ctx):
-    ctx.rule("R12.4", "restart: an amount counted by VelocityControl::insert (true edge) is persisted with update_node "
+def r124(ctx, rid="R12.4"):
+    ctx.rule(rid, "restart: an amount counted by VelocityControl::insert (true edge) is persisted with update_node "
                       "before the approving function returns success")
     from engine import effects
     p = ctx.prog
@@ -333,20 +333,20 @@ def r124(ctx):
               and not b.name.endswith(("::new", "::new_full", "::new_from_persistence", "::restore_node", "::restore_nodes",
                                        "::update_velocity_controls", "::new_extended"))]
     names = sorted(set(fns) | {b.name for b in others})
-    ctx.floor("R12.4", "functions counting velocity", len(names), 3)
+    ctx.floor(rid, "functions counting velocity", len(names), 3)
     for fn in names:
         b = p.fn(fn)
         lk = du.leaks(b, "velocity")
         seen = set()
         if not lk:
-            ctx.ob("R12.4", True, f"{fn}/velocity/durable", "", where=f"{b.file}:{b.line}",
+            ctx.ob(rid, True, f"{fn}/velocity/durable", "", where=f"{b.file}:{b.line}",
                    sample="counted amount persisted (update_node) before success return")
         for (bi, desc, ln), r in lk:
             tag = desc.split("(")[0].replace("call ", "").rsplit("::", 1)[-1]
             if tag in seen:
                 continue
             seen.add(tag)
-            ctx.ob("R12.4", False, f"{fn}/velocity/{tag}/not-persisted",
+            ctx.ob(rid, False, f"{fn}/velocity/{tag}/not-persisted",
                    f"`{fn}` counts an amount against a velocity limit ({desc}, line {ln}) and returns success (line "
                    f"{r['line']}) without persisting the node state: a restart forgets the amount already counted",
                    where=f"{b.file}:{ln}")
